@@ -463,7 +463,7 @@ def empty_row_rule(ctx, tk, rule):
     return n_dec
 
 
-def col_slice_model(ctx, tk, rule, Ns=(1, 2, 3)):
+def col_slice_model(ctx, tk, rule, Ns=(1, 2, 3), col_steps=(1, 2, -1)):
     """E9 for short rows: for row lengths N = 1..3 the selector space (start, stop, step) is partitioned at the
     landmarks where Python's slice semantics can change (every integer in [-N-1, N+1] is its own cell, the two tails
     beyond are one cell each; steps +-1..+-N are cells, larger magnitudes one symbolic cell per sign).  On every cell
@@ -473,9 +473,9 @@ def col_slice_model(ctx, tk, rule, Ns=(1, 2, 3)):
     from .absint import Interp, Iv, NONE, SliceV, Obj, INF
     cls = ctx.program.cls("raggedshape.RaggedView2")
     m = cls.lookup("col_slice")
-    what = "for rows of %d cell(s) a column slice selects the cells Python's slice arithmetic selects (first column, count, stride)"
+    what = "for rows of %d cell(s) of a view with column stride %d a column slice selects the cells Python's slice arithmetic selects (first cell, count, stride)"
     totals = {"holds": 0, "violated": 0, "unknown": 0}
-    for N in Ns:
+    for N, C in [(n_, c_) for n_ in Ns for c_ in col_steps]:
         bcells = [("None", NONE, [None])]
         for v in range(-N - 1, N + 2):
             bcells.append((str(v), Iv(v, v), [v]))
@@ -503,7 +503,7 @@ def col_slice_model(ctx, tk, rule, Ns=(1, 2, 3)):
                         unk += 1
                         continue
                     elen, efirst = next(iter(exp))[0], next(iter(exp))[1]
-                    I = Interp(ctx, cls, {"lengths": Iv(N, N), "starts": Iv(0, 0), "col_step": Iv(1, 1)}, sym_range=srange)
+                    I = Interp(ctx, cls, {"lengths": Iv(N, N), "starts": Iv(0, 0), "col_step": Iv(C, C)}, sym_range=srange)
                     try:
                         res = I.run(m, [SliceV(av, bv, sv)], {})
                     except RecursionError:
@@ -524,19 +524,19 @@ def col_slice_model(ctx, tk, rule, Ns=(1, 2, 3)):
                     if verdict is True and elen > 0:
                         if fs is None:
                             verdict = None
-                        elif fs[0] == fs[1] == efirst:
+                        elif fs[0] == fs[1] == C * efirst:
                             verdict = True
-                        elif fs[0] > efirst or fs[1] < efirst:
+                        elif fs[0] > C * efirst or fs[1] < C * efirst:
                             verdict = False
-                            detail = "starts at column %s, Python starts at column %d" % ("%d" % fs[0] if fs[0] == fs[1] else "in [%s, %s]" % fs, efirst)
+                            detail = "starts at raw offset %s, column %d of a view with stride %d is at offset %d" % ("%d" % fs[0] if fs[0] == fs[1] else "in [%s, %s]" % fs, efirst, C, C * efirst)
                         else:
                             verdict = None
                     if verdict is True and elen > 1 and len(res.args) > 2:
-                        # stride: col_step * step with col_step == 1
+                        # stride: col_step * step
                         stv = I.num(res.args[2]) if isinstance(res.args[2], Iv) else None
                         steps = {e[2] for e in exp}
                         if stv is not None and len(steps) == 1:
-                            est = next(iter(steps))
+                            est = C * next(iter(steps))
                             if stv[0] > est or stv[1] < est:
                                 verdict = False
                                 detail = "stride %s, Python's stride %d" % (stv, est)
@@ -551,9 +551,51 @@ def col_slice_model(ctx, tk, rule, Ns=(1, 2, 3)):
         totals["violated"] += len(bad)
         if bad:
             for key, detail in bad[:6]:
-                ctx.violated(rule, m, what % N, "slice %s on a row of %d cell(s): col_slice %s (%d cells of the selector partition disagree, %d agree)" % (
-                    key, N, detail, len(bad), ok), key="model:N=%d:%s" % (N, key), engine="E9")
+                ctx.violated(rule, m, what % (N, C), "slice %s on a row of %d cell(s): col_slice %s (%d cells of the selector partition disagree, %d agree)" % (
+                    key, N, detail, len(bad), ok), key="model:N=%d,C=%d:%s" % (N, C, key), engine="E9")
         else:
-            ctx.decide(rule, m, what % N, True if ok else None, key="model:N=%d" % N, engine="E9",
+            ctx.decide(rule, m, what % (N, C), True if ok else None, key="model:N=%d,C=%d" % (N, C), engine="E9",
                        detail_ok="%d cells of the selector partition agree, %d undecided" % (ok, unk))
     return totals
+
+
+def int_column_model(ctx, tk, rule, Ns=(1, 2, 3), col_steps=(1, 2, -1)):
+    """E9: an integer column of a view whose rows all have N cells: an index in [-N, N) addresses cell (idx mod N) of every row
+    (raw offset col_step * (idx mod N), one cell per row); every other index is refused on every path"""
+    from .absint import Interp, Iv, Obj, REFUSED, INF
+    cls = ctx.program.cls("raggedshape.RaggedView2")
+    m = cls.lookup("col_slice")
+    what = "an integer column of rows with %d cell(s) (view stride %d) addresses cell idx mod N of each row and is refused outside [-N, N)"
+    for N, C in [(n_, c_) for n_ in Ns for c_ in col_steps]:
+        cells = [(str(v), Iv(v, v), v) for v in range(-N - 1, N + 2)] + [("<=%d" % (-N - 2), Iv(-INF, -N - 2), None), (">=%d" % (N + 2), Iv(N + 2, INF), None)]
+        bad, ok, unk = [], 0, 0
+        for name, av, v in cells:
+            I = Interp(ctx, cls, {"lengths": Iv(N, N), "starts": Iv(0, 0), "col_step": Iv(C, C), "len:lengths": Iv(1, INF)})
+            res = I.run(m, [av], {})
+            in_range = v is not None and -N <= v < N
+            if in_range:
+                if isinstance(res, Obj) and len(res.args) >= 2 and isinstance(res.args[0], Iv) and isinstance(res.args[1], Iv):
+                    a0, a1 = I.num(res.args[0]), I.num(res.args[1])
+                    want = C * (v % N)
+                    if a0 == (want, want) and a1 == (1, 1):
+                        ok += 1
+                    elif a0[0] > want or a0[1] < want or a1[0] > 1 or a1[1] < 1:
+                        bad.append((name, "addresses raw offset %s with %s cell(s); cell %d is at offset %d" % (a0, a1, v % N, want)))
+                    else:
+                        unk += 1
+                elif res is REFUSED:
+                    bad.append((name, "is refused although the column exists"))
+                else:
+                    unk += 1
+            else:
+                if res is REFUSED:
+                    ok += 1
+                elif isinstance(res, Obj):
+                    bad.append((name, "is not refused: it addresses raw offset %s, a cell of another row" % (res.args[0],)))
+                else:
+                    unk += 1
+        if bad:
+            for name, detail in bad[:4]:
+                ctx.violated(rule, m, what % (N, C), "column %s %s" % (name, detail), key="intcol:N=%d,C=%d:%s" % (N, C, name), engine="E9")
+        else:
+            ctx.decide(rule, m, what % (N, C), True if ok else None, key="intcol:N=%d,C=%d" % (N, C), engine="E9", detail_ok="%d index cells agree, %d undecided" % (ok, unk))
